@@ -273,6 +273,88 @@ def run_batch(H, variant, tag):
     S.explore(body)
 
 
+def replay_setup(vals, oid):
+    """native: the same output folder used twice without append (second run shorter), and an append run after a first run: sizes and quality files"""
+    import pyfftw  # noqa
+    import joblib
+    bad = []
+    d = tempfile.mkdtemp(prefix="c06_")
+    try:
+        rng = np.random.default_rng(3)
+        ap_long, _ = _mk_rec(os.path.join(d), 30000, rng)
+        od = os.path.join(d, "out")
+        os.makedirs(od)
+        out = os.path.join(od, "out.bin")
+        with joblib.parallel_backend("threading"):
+            V.decompress_destripe_cbin(ap_long, output_file=out, nbatch=8192, nprocesses=1, reject_channels=False, compute_rms=True)
+            n_long = np.load(os.path.join(od, "_iblqc_ephysTimeRmsAP.rms.npy")).shape[0]
+            d2 = os.path.join(d, "short")
+            os.makedirs(d2)
+            ap_short, _ = _mk_rec(d2, 12000, rng)
+            V.decompress_destripe_cbin(ap_short, output_file=out, nbatch=8192, nprocesses=1, reject_channels=False, compute_rms=True)
+        rms = np.load(os.path.join(od, "_iblqc_ephysTimeRmsAP.rms.npy"))
+        ts = np.load(os.path.join(od, "_iblqc_ephysTimeRmsAP.timestamps.npy"))
+        if os.path.getsize(out) != 12000 * 385 * 2 or rms.shape[0] != 2 or ts.shape[0] != 2 or not np.all(np.diff(ts) > 0):
+            bad.append({"second_run_in_the_same_folder": {"output_bytes": os.path.getsize(out), "rms_rows": int(rms.shape[0]), "rows_of_the_first_run": int(n_long), "timestamps": ts[:6].tolist()}})
+    finally:
+        shutil.rmtree(d, ignore_errors=True)
+    return {"failed": bool(bad), "cases": bad}
+
+
+@harness(PROPERTY, "setup_outputs", functions=["ibldsp.voltage:decompress_destripe_cbin (the statements that create / size the output and quality files)"], replay=replay_setup,
+         clause="a file with the input's sample count ... append mode concatenates runs; RMS quality files one entry per batch: a run that does not append starts its output, RMS and timestamp files empty "
+                "(nothing of an earlier run in the same folder survives), an appending run starts each of them at its current end and truncates none")
+def h_setup(H):
+    for append in (False, True):
+        S = H.session(f"setup.append{append}")
+
+        def body(it, append=append):
+            node, inner, filename, consts = _nested()
+            it.session.note_function(FN)
+            fs_ = fsmodel.GhostFS()
+            it.session.ghost_fs = fs_
+            out_path = fsmodel.GhostPath(fs_, ("out",), "destriped.bin")
+            sizes = {}
+            for nm in ("destriped.bin", "ap_rms.bin", "ap_time.bin"):
+                p_ = fsmodel.GhostPath(fs_, ("out",), nm)
+                fs_.exists[p_.key] = True
+                sizes[nm] = z3.Int("size_" + nm.replace(".", "_"))
+                it.ctx.assume(sizes[nm] >= 0)
+                fs_.size[p_.key] = SV(sizes[nm])
+            ns = z3.Int("ns")
+            it.ctx.assume(ns >= 1)
+            saved = []
+            it.session.contracts[np.save] = lambda it_, a, k: saved.append(a)
+            it.session.contracts[np.frombuffer] = lambda it_, a, k: A.fresh_array("time_data", "float32", (z3.Int("n_times"),))
+            it.ctx.assume(z3.Int("n_times") >= 1)
+            env = I.Env(None, FN.__globals__, qualname="decompress_destripe_cbin", filename=filename)
+            env.vars.update(dict(compute_rms=True, append=append, output_file=out_path, sr=SObj(spikeglx.Reader, ns=SV(ns))))
+            it.ctx.func = env.qualname
+            src = [ast.unparse(st) for st in node.body]
+            i_rms = [i for i, t in enumerate(src) if t.startswith("if compute_rms:") and "ap_rms_file" in t and "rms_nbytes" in t]
+            i_app = [i for i, t in enumerate(src) if t.startswith("if append:") and "offset" in t]
+            if len(i_rms) != 1 or len(i_app) != 1:
+                raise I.Unsupported("cannot identify the statements that create the quality files / size the output in decompress_destripe_cbin()")
+            it.exec_stmt(node.body[i_rms[0]], env)
+            it.exec_stmt(node.body[i_app[0]], env)
+            tag = f"append{append}"
+            trunc = {op[1] for op in fs_.log if op[0] == "open_w"}
+            keys = {nm: fsmodel.GhostPath(fs_, ("out",), nm).key for nm in sizes}
+            g = lambda nm: term(env.vars[nm]) if isinstance(env.vars.get(nm), (SV, int)) else None      # noqa
+            if not append:
+                it.ctx.oblige(f"setup.fresh_run_starts_empty.{tag}", z3.BoolVal(all(k_ in trunc for k_ in keys.values())), "post",
+                              "without append the output file and the RMS / timestamp place holders are truncated (opened for writing), not merely created if missing")
+                it.ctx.oblige(f"setup.fresh_run_offsets.{tag}", z3.And(*[g(nm) == 0 for nm in ("offset", "rms_offset", "time_offset", "t0")]) if all(g(nm) is not None for nm in ("offset", "rms_offset", "time_offset", "t0")) else z3.BoolVal(False), "post", assume=False)
+            else:
+                it.ctx.oblige(f"setup.append_truncates_nothing.{tag}", z3.BoolVal(not trunc), "post", "an appending run truncates none of the three files")
+                ok = all(g(nm) is not None for nm in ("offset", "rms_offset", "time_offset"))
+                it.ctx.oblige(f"setup.append_offsets.{tag}", z3.And(g("offset") == sizes["destriped.bin"], g("rms_offset") == sizes["ap_rms.bin"], g("time_offset") == sizes["ap_time.bin"]) if ok else z3.BoolVal(False), "post",
+                              "and starts each at its current end", assume=False)
+            it.ctx.oblige(f"setup.saturation_file_one_entry_per_sample.{tag}", z3.BoolVal(len(saved) == 1 and isinstance(saved[0][1], SArr) and saved[0][1].dtype.kind == "b") and (A.T(saved[0][1].shape[0]) == ns if len(saved) == 1 and isinstance(saved[0][1], SArr) else z3.BoolVal(False)), "post",
+                          "the saturation file is created with one boolean entry per sample of the input", assume=False)
+        S.explore(body)
+
+
 def replay_batch(vals, oid):
     """native: a 20000-sample recording destriped to disk by 1 and by 3 workers (8192-sample batches), saturated stretches where batches are tapered"""
     bad = native_destripe(np.random.default_rng(7), 20000, 8192, (1, 3), False)
